@@ -973,6 +973,15 @@ impl CommitEnv for LsmCommitEnv {
 			processed_batch.add_record(entry.kind, entry.key.clone(), encoded_value, timestamp)?;
 		}
 
+		// A batch that does not fit even an empty memtable can never be applied:
+		// the apply would fail half-way (also after a rotation), leaving the
+		// entries inserted so far visible although the commit reports an error,
+		// and exhausting the arena of the memtable it was tried on. Refuse it
+		// before it is logged.
+		if !MemTable::batch_fits_empty(&processed_batch, self.core.opts.max_memtable_size) {
+			return Err(Error::BatchTooLarge);
+		}
+
 		// Write to WAL for durability
 		let enc_bytes = processed_batch.encode()?;
 		let mut wal_guard = self.core.wal.write();
